@@ -43,8 +43,13 @@ type Store struct {
 // ErrTransient is what an injected read failure returns (a connection-level error: not a not-found error)
 var ErrTransient = errors.New("verif: injected transient store read failure (connection reset)")
 
-func (s *Store) readFails(kind string) bool {
-	return (s.ReadFail != nil && s.ReadFail[kind]) || (s.S != nil && s.S.ReadFail != nil && s.S.ReadFail[kind])
+// readFails: the scenario-wide switch (every read of that kind fails), or the scheduler's choice read_fail(t) (the next
+// read of the request the context belongs to fails, whatever its kind)
+func (s *Store) readFails(ctx context.Context, kind string) bool {
+	if (s.ReadFail != nil && s.ReadFail[kind]) || (s.S != nil && s.S.ReadFail != nil && s.S.ReadFail[kind]) {
+		return true
+	}
+	return s.S != nil && s.S.consumeFail(ctx, kind)
 }
 
 func txOf(l *ledger.ChainedLog) *ledger.Transaction {
@@ -58,7 +63,7 @@ func txOf(l *ledger.ChainedLog) *ledger.Transaction {
 }
 
 func (s *Store) GetBalance(ctx context.Context, address, asset string) (*big.Int, error) {
-	if s.readFails("balance") {
+	if s.readFails(ctx, "balance") {
 		return nil, ErrTransient
 	}
 	b := new(big.Int)
@@ -84,7 +89,7 @@ func (s *Store) GetBalance(ctx context.Context, address, asset string) (*big.Int
 }
 
 func (s *Store) GetAccount(ctx context.Context, address string) (*ledger.Account, error) {
-	if s.readFails("account") {
+	if s.readFails(ctx, "account") {
 		return nil, ErrTransient
 	}
 	acc := &ledger.Account{Address: address, Metadata: metadata.Metadata{}}
@@ -132,7 +137,7 @@ func (s *Store) GetLastTransaction(ctx context.Context) (*ledger.ExpandedTransac
 }
 
 func (s *Store) ReadLogWithIdempotencyKey(ctx context.Context, key string) (*ledger.ChainedLog, error) {
-	if s.readFails("ik") {
+	if s.readFails(ctx, "ik") {
 		return nil, ErrTransient
 	}
 	for _, l := range s.D.snapshot() {
@@ -144,7 +149,7 @@ func (s *Store) ReadLogWithIdempotencyKey(ctx context.Context, key string) (*led
 }
 
 func (s *Store) GetTransactionByReference(ctx context.Context, ref string) (*ledger.ExpandedTransaction, error) {
-	if s.readFails("ref") {
+	if s.readFails(ctx, "ref") {
 		return nil, ErrTransient
 	}
 	logs := s.D.snapshot()
@@ -163,7 +168,7 @@ func (s *Store) GetTransactionByReference(ctx context.Context, ref string) (*led
 }
 
 func (s *Store) GetTransaction(ctx context.Context, txID *big.Int) (*ledger.Transaction, error) {
-	if s.readFails("tx") {
+	if s.readFails(ctx, "tx") {
 		return nil, ErrTransient
 	}
 	logs := s.D.snapshot()
